@@ -479,6 +479,13 @@ func (m *mountTarget) mountSucceeds(n int) bool { return (int64(n)*7+m.seed)%3 =
 
 func (m *mountTarget) Mount(ctx context.Context, d ocispec.Descriptor, fromRepo string, getContent func() (io.ReadCloser, error)) error {
 	n := m.r.u.IDOf(d)
+	// a fault of the mount itself, before any side effect, at the first candidate repository
+	// (which is not the last one when MountFrom named two)
+	if f := m.r.faultFor("mount", n); f != nil && fromRepo == "test/repo1" {
+		if err := m.r.fire(f, n); err != nil {
+			return err
+		}
+	}
 	if m.mountSucceeds(n) {
 		if err := m.instrDst.inner.Push(ctx, d, bytes.NewReader(m.r.u.Nodes[n].Bytes)); err != nil && !errors.Is(err, errdef.ErrAlreadyExists) {
 			return err
